@@ -873,6 +873,51 @@ def r10_sample_columns_by_rater_names(ctx):
     ctx.floor("column selections of the samples argument", n_idx, 1)
 
 
+
+def r11_training_set_as_given(ctx):
+    """The training set used is the one passed: `get_rater` replaces the
+    argument by a shipped set only when the argument *itself* is one of the
+    shipped labels - a test on something derived from it (its base name, a
+    lower-cased copy) silently swaps a user's directory for the shipped set
+    of the same name."""
+    from ..symres import Resolver
+    m = ctx.repo.mod("rate.rater")
+    f = m.func("get_rater")
+    ctx.analysed(f)
+    R = Resolver(f, keep={"training_set"})
+    n = 0
+    for t in ast.walk(f):
+        if not (isinstance(t, ast.Compare) and len(t.ops) == 1
+                and isinstance(t.ops[0], (ast.In, ast.NotIn))):
+            continue
+        rhs = R.text(t.comparators[0])
+        if "get_available_training_sets" not in rhs:
+            continue
+        n += 1
+        lhs = R.resolve(t.left)
+        ctx.check(isinstance(lhs, ast.Name) and lhs.id == "training_set", t,
+                  "shipped-label test on the argument itself",
+                  f"get_rater tests `{norm(lhs)[:50]}` against the shipped "
+                  "labels instead of the `training_set` argument itself: a "
+                  "user directory whose derived name equals a shipped label "
+                  "is replaced by the shipped training set")
+    ctx.floor("shipped-label tests in get_rater", n, 1)
+    # the path handed to the loader is the argument (or the shipped path)
+    for c in calls_in(f):
+        if (call_name(c) or "").endswith("load_training_set"):
+            pth = kwarg(c, "path")
+            if pth is None:
+                continue
+            vals = R.reaching_values(pth) if hasattr(
+                R, "reaching_values") and isinstance(pth, ast.Name) else [pth]
+            for v in vals or [pth]:
+                tv = norm(v)
+                ctx.check(tv == "training_set" or "get_training_set_path"
+                          in tv, c, f"loader path = {tv[:50]}",
+                          f"get_rater loads `{tv[:60]}` instead of the "
+                          "training set it was given")
+
+
 RULES = [
     ("C09-R1", "fit-properties reads on the rating path are guarded "
      "(inter-procedural key-presence typestate)", r1_key_presence),
@@ -896,4 +941,7 @@ RULES = [
      "slices, one-sample gradients)", r9_features_never_raise),
     ("C09-R10", "the standalone rater splits a feature vector by position "
      "in its own names", r10_sample_columns_by_rater_names),
+    ("C09-R11", "get_rater uses the training set it is given (shipped "
+     "labels are recognised on the argument itself)",
+     r11_training_set_as_given),
 ]
